@@ -171,6 +171,31 @@ func (r *refReader) Read(p []byte) (n int, err error) {
 	return n, nil
 }
 
+// wtReader adds an io.WriterTo to refReader; with swallow it ends the copy with a nil error
+// when the store fails (the defect the copy ops are there to find).
+type wtReader struct {
+	*refReader
+	swallow bool
+}
+
+func (r *wtReader) WriteTo(w io.Writer) (n int64, err error) {
+	buf := make([]byte, 5)
+	for {
+		k, rerr := r.Read(buf)
+		m, _ := w.Write(buf[:k])
+		n += int64(m)
+		if rerr == io.EOF {
+			return n, nil
+		}
+		if rerr != nil {
+			if r.swallow {
+				return n, nil
+			}
+			return n, rerr
+		}
+	}
+}
+
 func selfFail(t *testing.T, format string, a ...any) {
 	fmt.Println("SELFTEST-FAILURE: " + fmt.Sprintf(format, a...))
 	t.Fatalf(format, a...)
@@ -277,6 +302,39 @@ func TestSelf(t *testing.T) {
 		checkReadSeeker(newFailer(&o), bytes.NewReader(tl.blob), &tl, ops, &noFaults{})
 		if len(o.Violations) != 1 || o.Violations[0].Sig != "C09:readseeker:mis-sized-entry-accepted" {
 			selfFail(t, "twin history on a reader that serves the range: %+v", o.Violations)
+		}
+	}
+
+	// copies: silent on a correct reader with and without WriteTo for every way of copying and every
+	// position of a store failure; a WriteTo that swallows the failure is named
+	for _, via := range []string{"copy", "writerto", "read", "buffer", "copyn"} {
+		for k := 0; k <= 6; k++ {
+			for _, mode := range []string{"plain", "writerto", "swallow"} {
+				ops := []Op{{Op: "seek", Off: 3, Abs: true}}
+				if k > 0 {
+					ops = append(ops, Op{Op: "fail", K: k})
+				}
+				ops = append(ops, Op{Op: "copy", Via: via, Len: int(l.length)}, Op{Op: "read", Len: 2}, Op{Op: "copy", Via: via, Len: 4}, Op{Op: "read", Len: 1})
+				var o hx.Outcome
+				store := dx.NewMemStore("self")
+				fillStore(store, &l)
+				fl := newFailer(&o)
+				var rs io.ReadSeeker = &refReader{l: &l, s: store}
+				if mode != "plain" {
+					rs = &wtReader{refReader: &refReader{l: &l, s: store}, swallow: mode == "swallow"}
+				}
+				checkReadSeeker(fl, rs, &l, ops, newMemFaults(store))
+				hit := false
+				for _, x := range o.Violations {
+					if x.Sig == "C09:readseeker:copy-store-error-swallowed" {
+						hit = true
+					}
+				}
+				wantHit := mode == "swallow" && k > 0 && (via == "copy" || via == "writerto")
+				if hit != wantHit || (!wantHit && len(o.Violations) > 0) || !fl.cls["op:copy"] || (k > 0 && !fl.cls["op:copy:fault-delivered"]) {
+					selfFail(t, "copy via %s, failure at request %d, reader %s: violations %+v classes %v", via, k, mode, o.Violations, fl.cls)
+				}
+			}
 		}
 	}
 
